@@ -277,9 +277,13 @@ def reload(case, lm, through_file):
         # the receiving instance has held other tables before (a unigram model, then a two-entry bigram model: smaller shape constants than most tables): load_state_dict
         # resizes the buffers and re-infers the shape constants every time
         toks = toks_of(case["V"], case["sos"])
-        other = [LookupLanguageModel(case["V"], case["sos"], [{t: -1.0 for t in range(case["V"])}]),
-                 LookupLanguageModel(case["V"], case["sos"], [{t: (-1.0, -0.5) for t in toks},
+        other = [LookupLanguageModel(case["V"], case["sos"], [{t: (-1.0, -0.5) for t in toks},
                                                                 {(a, toks[0]): -2.0 for a in toks[-2:]}])]
+        if len(toks) < 258:
+            # F37 (pending, corpus/C06/f37_unigram_vocab_258_numpy2.json.pending): an ORDER-1 table over >= 258 unigram
+            # nodes cannot be constructed under NumPy 2 (np.uint8(256) in _build_trie's `parents`); exactly that signature
+            # is left out of the detour until /repo is repaired
+            other.insert(0, LookupLanguageModel(case["V"], case["sos"], [{t: -1.0 for t in range(case["V"])}]))
         for o in other:
             lm2.load_state_dict(o.state_dict())
     lm2.load_state_dict(sd)
@@ -301,17 +305,24 @@ def metamorphic(case, lm, lm2):
         h, T, B = ht(q["hist"], q["B"]), len(q["hist"]), q["B"]
         rich, rich_done = not rich_done, True
         rot = T + B + len(case["dicts"][-1])
+        long_ = T > 40      # size-threshold stream: every all-positions pass costs T lookups; sampled positions, two layouts
+        rich = rich and not long_
         where = dict(hist=q["hist"], B=B)
         try:
             full = lm(h)
             if full.shape != (T + 1, B, V):
                 bad.append(("shape of full output", list(full.shape)))
                 continue
-            for c in sorted({1, 2, 3, max(T, 1), T + 1, T + 4}):
+            for c in sorted({1, 2, 3, max(T, 1), T + 1, T + 4} | {c for c in (16, 17, 32, 33, 64, 65, 128, 129) if c <= T}):
                 got = lm.calc_full_log_probs_chunked(h, dict(), c)
                 if not torch.equal(got, full):
                     bad.append(("chunk_size=%d differs from chunk_size=1" % c, where))
-            for i in range(T + 1):
+            # every position of a short history; of a long one (size-threshold stream) both ends, the positions next to
+            # the powers of two and a stride that rotates with the case
+            posns = range(T + 1) if T <= 40 else sorted(
+                {i for i in list(range(6)) + [15, 16, 17, 31, 32, 33, 63, 64, 65, 127, 128, 129, 255, 256, T - 2, T - 1, T] if i <= T}
+                | set(range(rot % 11, T + 1, 11)))
+            for i in posns:
                 # a scalar index anywhere in the history (not only at its end), in the forms a caller may use
                 forms = [("int", lambda: lm(h, idx=i)), ("negative int", lambda: lm(h, idx=i - T - 1)),
                          ("0-dim tensor", lambda: lm(h, idx=torch.tensor(i)))]
@@ -354,7 +365,8 @@ def metamorphic(case, lm, lm2):
                 if not torch.equal(lm(h), full):
                     bad.append(("the same history gives another result after other calls", where))
             # the result is a function of the history's contents, not of its memory layout
-            for li, lay in enumerate(LAYOUTS[1:]):
+            lays = list(enumerate(LAYOUTS[1:]))
+            for li, lay in ([lays[(rot + k) % len(lays)] for k in (0, 3)] if long_ else lays):
                 hv = as_layout(h, lay)
                 keep = hv.clone()
                 det = dict(hist=q["hist"], B=B, layout=lay)
@@ -585,6 +597,278 @@ def deep_table(rng):
 
 
 # ----------------------------------------------------------------------------------------
+# size thresholds: ONE tensor extent of the lookup at 17 / 31..33 / 63..65 / 127..129 / 255..257 (where library
+# kernels and tempting rewrites change algorithm: sort / topk at 16, vectorised and blocked reductions at 32 / 64 / 128,
+# int8 / uint8 index tensors at 128 / 256), the other extents small so that the case stays an ordinary `lm` case
+# judged by the model and by Spec.katz inside Coq.  Every case has an element that FILLS the extent and whose
+# answer is read from the last cell (last token / last sorted n-gram / last child / last batch column / last
+# position / last chunk), and payloads that are pairwise different so that a permuted, dropped or repeated cell shows.
+# ----------------------------------------------------------------------------------------
+
+SIZES = [17, 31, 32, 33, 63, 64, 65, 127, 128, 129]
+SIZES_BIG = [255, 256, 257]
+
+
+def dval(j):
+    """pairwise different log-probabilities (still multiples of 1/8, sums exact in float32)"""
+    return -(j + 1)
+
+
+def dbo(j):
+    return -((5 * j + 2) % 23)
+
+
+def sorted_level(V, sos, ents):
+    """the entries of one order in the order _build_trie lays them out (reversed key, sos renamed to V when outside)"""
+    out = not 0 <= sos < V
+    return sorted(ents, key=lambda e: [V if (out and x == sos) else x for x in e[0]][::-1])
+
+
+def cols_to_hist(cols):
+    return [[c[t] for c in cols] for t in range(len(cols[0]))] if cols and cols[0] else []
+
+
+def small_dense_table(rng, V, sos, N, dens=0.6):
+    """every order listed with density dens, pairwise different values, a few -inf"""
+    toks = toks_of(V, sos)
+    dicts, j = [], 0
+    for n in range(1, N + 1):
+        ents = []
+        for k in itertools.product(toks, repeat=n):
+            if n == 1 or rng.random() < dens:
+                j += 1
+                ents.append([list(k), NEG if (n > 1 and rng.random() < 0.08) else dval(j), 0 if n == N else dbo(j)])
+        if not ents:
+            ents.append([[toks[-1]] * n, dval(j), 0])
+        rng.shuffle(ents)
+        dicts.append(ents)
+    return dicts
+
+
+def size_vocab_table(rng, V):
+    """extent = vocabulary size (M = B*V cells, vrange, ids dtype): few n-grams, all of them around the LAST token"""
+    sos = rng.choice([0, V - 1, V, -1])
+    N = rng.choice([2, 2, 3])
+    toks = toks_of(V, sos)
+    last = V - 1
+    d1 = [[[t], dval(t), dbo(t)] for t in toks if t == last or t == sos or rng.random() < 0.97]
+    pairs = {(last, last), (0, last), (last, 0), (sos, last), (last - 1, last), (last, last - 1), (15, 16), (16, 15)}
+    while len(pairs) < 12:
+        pairs.add((rng.choice(toks), rng.choice(toks)))
+    pairs = sorted(pairs)
+    d2 = [[list(p), dval(V + 1 + i), 0 if N == 2 else dbo(i + 3)] for i, p in enumerate(pairs)]
+    dicts = [d1, d2]
+    if N == 3:
+        tri = {(last, last, last), (last - 1, last, 0), (sos, sos, last), (0, last, last), (last, 0, last)}
+        dicts.append([[list(k), dval(2 * V + 20 + i), 0] for i, k in enumerate(sorted(tri))])
+    case = dict(kind="lm", V=V, sos=sos, dicts=dicts, opt=rng.choice([0, 0, 1]), detour=rng.random() < 0.5)
+    cols = [[last, last], [last - 1, last], [sos, last], [last, 0], [rng.choice(toks), rng.choice(toks)]]
+    rng.shuffle(cols)
+    big = V > 200
+    cols = cols[:2] if big else cols[:3]
+    B = len(cols)
+    qs = [dict(hist=cols_to_hist(cols), B=B, idx=None, call=rng.choice(["kw", "pos", "method"])),
+          dict(hist=cols_to_hist(cols[::-1]), B=B, idx=[2, 1, 0][:B], idx_form=rng.choice(["i64", "i32"]))]
+    if not big:
+        qs.append(dict(hist=[[last], [last], [last]], B=1, idx=3, idx_form=rng.choice(["int", "t0", "t1"])))
+        qs.append(dict(hist=cols_to_hist(cols), B=B, idx=None, chunk=2))
+    case["queries"] = qs
+    return case
+
+
+def size_ngrams_table(rng, n, level):
+    """extent = number of n-grams of one order (a level of the trie: offsets / ids / logps cells, the sort in
+    _build_trie): exactly n bigrams (level 2 of an order-2 or order-3 table) or n trigrams (level 3); fan-out small.
+    Queried at the FIRST and LAST entries of the level in layout order and around positions 15..17."""
+    N = 3 if level == 3 else rng.choice([2, 3])
+    V = 6 if level == 3 else 20
+    if level == 3 and n > 200:
+        V = 7
+    sos = rng.choice([0, V, -1])
+    toks = toks_of(V, sos)
+    allk = list(itertools.product(toks, repeat=level))
+    rng.shuffle(allk)
+    top = [[list(k), dval(j), 0 if level == N else dbo(j)] for j, k in enumerate(allk[:n])]
+    d1 = [[[t], dval(1000 + t), dbo(t)] for t in toks if rng.random() < 0.9]
+    if level == 2 and N == 2:
+        dicts = [d1, top]
+    elif level == 2:
+        tri = [[[rng.choice(toks)] + e[0], dval(2000 + i), 0] for i, e in enumerate(rng.sample(top, 4))]
+        dicts = [d1, top, tri]
+    else:
+        bi = list(itertools.product(toks, repeat=2))
+        dicts = [d1, [[list(k), dval(2000 + i), dbo(i)] for i, k in enumerate(bi) if rng.random() < 0.5], top]
+    case = dict(kind="lm", V=V, sos=sos, dicts=dicts, opt=rng.choice([0, 1, 3]), detour=rng.random() < 0.5)
+    lay = sorted_level(V, sos, top)
+    pick = [lay[-1], lay[0], lay[min(15, n - 1)], lay[min(16, n - 1)], lay[-2], rng.choice(lay), rng.choice(lay)]
+    cols = [e[0][:-1] for e in pick]
+    if level < N:   # a bigram of an order-3 table is reached with a longer history too
+        cols = [[rng.choice(toks)] + c for c in cols]
+    cols.append([rng.choice(toks) for _ in cols[0]])
+    T, B = len(cols[0]), len(cols)
+    case["queries"] = [dict(hist=cols_to_hist(cols), B=B, idx=None),
+                       dict(hist=cols_to_hist(cols), B=B, idx=T, idx_form=rng.choice(["int", "t0"]), call=rng.choice(["kw", "pos", "prev"])),
+                       dict(hist=cols_to_hist(cols[:3]), B=3, idx=[T, T, T - 1]),
+                       dict(hist=cols_to_hist(cols), B=B, idx=None, chunk=rng.choice([2, 3]))]
+    return case
+
+
+def size_children_table(rng, S, deep):
+    """extent = number of children of ONE trie node (max_direct_descendants: srange, the (M + B, S) candidate matrix,
+    .any(1) / .sum(1) over it).  deep = the wide node is a bigram node of an order-3 table (level 1 branches little,
+    so S is decided below level 1), else a unigram node of an order-2 table.  fill = every token incl. an outside sos
+    is a child (S = V + 1, the maximum)."""
+    fill = rng.random() < 0.4
+    V, sos = (S - 1, rng.choice([S - 1, -1])) if fill else (S + 3, rng.choice([0, S + 3, -1]))
+    toks = toks_of(V, sos)
+    kids = toks[:] if fill else sorted(rng.sample(toks, S))
+    v0 = rng.choice([0, V - 1, V // 2])
+    d1 = [[[t], dval(t), dbo(t)] for t in toks if t in (v0, sos) or rng.random() < 0.95]
+    if deep:
+        z0 = rng.choice([t for t in range(V) if t != v0])
+        d2 = [[[z0, v0], dval(V + 5), -3], [[v0, z0], dval(V + 6), -1]]
+        d3 = [[[w, z0, v0], dval(V + 10 + i), 0] for i, w in enumerate(kids)] + [[[kids[0], v0, z0], dval(5 * V), 0]]
+        dicts = [d1, d2, d3]
+        ctx = lambda w: [w, z0]
+    else:
+        v1 = (v0 + 1) % V
+        d2 = [[[w, v0], dval(V + 10 + i), 0] for i, w in enumerate(kids)] + [[[kids[-1], v1], dval(5 * V), 0], [[kids[0], v1], dval(5 * V + 1), 0]]
+        dicts = [d1, d2]
+        ctx = lambda w: [w]
+    for d in dicts:
+        rng.shuffle(d)
+    case = dict(kind="lm", V=V, sos=sos, dicts=dicts, opt=0, detour=rng.random() < 0.5)
+    ws = [kids[-1], kids[0], kids[15], kids[16], kids[-2]]
+    other = [t for t in toks if t not in kids]
+    ws.append(other[0] if other else kids[S // 2])
+    cols = [ctx(w) for w in ws]
+    big = S > 200
+    if big:
+        cols = cols[:3]
+    T, B = len(cols[0]), len(cols)
+    qs = [dict(hist=cols_to_hist(cols), B=B, idx=T, idx_form=rng.choice(["int", "t0", "t1"]))]
+    if not big:
+        qs.append(dict(hist=cols_to_hist(cols[:2]), B=2, idx=None))
+        qs.append(dict(hist=cols_to_hist(cols[::-1][:3]), B=3, idx=[T, T - 1, T]))
+    case["queries"] = qs
+    return case
+
+
+def size_batch_table(rng, B):
+    """extent = batch of histories (and the per-element idx vector, one entry per history): pairwise different
+    columns as far as the token set allows, the LAST column unlike all others and ending in a listed n-gram"""
+    V, N = rng.choice([2, 3]), 3
+    sos = rng.choice([0, V, -1])
+    toks = toks_of(V, sos)
+    T = 3
+    while len(toks) ** T < B:
+        T += 1
+    dicts = small_dense_table(rng, V, sos, N)
+    case = dict(kind="lm", V=V, sos=sos, dicts=dicts, opt=0, detour=rng.random() < 0.5)
+    allc = [list(c) for c in itertools.product(toks, repeat=T)]
+    rng.shuffle(allc)
+    tops = [e[0] for e in dicts[-1] if e[1] != NEG] or [dicts[-1][0][0]]
+    lastc = [rng.choice(toks) for _ in range(T - 2)] + rng.choice(tops)[:2]
+    cols = [c for c in allc if c != lastc][:B - 1] + [lastc]
+    while len(cols) < B:
+        cols.insert(0, rng.choice(allc))
+    hist = cols_to_hist(cols)
+    ix1 = [rng.randint(1, T) for _ in range(B - 1)] + [0]        # the minimum (it decides the padding) only in the last entry
+    ix2 = [rng.randint(0, T - 1) for _ in range(B - 1)] + [T]    # the maximum only in the last entry
+    ix3 = [(-1 - (b % (T + 1))) for b in range(B)]               # negative spellings
+    # all positions on the last two rows only (the (T + 1, B, V) answer of the whole history would be most of the Coq
+    # term; the relations on the implementation compare it with every chunk size, chunk_size=3 being ONE pass over
+    # 3 * B columns), the per-element / scalar indices on the whole history
+    case["queries"] = [dict(hist=hist[-2:], B=B, idx=None, layout=rng.choice([None, "cols", "transposed"])),
+                       dict(hist=hist, B=B, idx=ix1, idx_form=rng.choice(["i64", "i32"])),
+                       dict(hist=hist, B=B, idx=ix2, layout=rng.choice([None, "colstep", "offset"])),
+                       dict(hist=hist, B=B, idx=ix3 if B % 2 else T - 1, idx_form=rng.choice(["int", "t0", "t1"]) if B % 2 == 0 else "i64")]
+    return case
+
+
+def size_time_table(rng, T):
+    """extent = history length: all T + 1 positions, scalar indices at both ends and inside, per-element indices that
+    pick windows at the very end / start of a long history (the mask over arange(T) in the per-element branch)"""
+    V, N = rng.choice([2, 3]), rng.choice([2, 3, 3, 4])
+    sos = rng.choice([0, V, -1])
+    toks = toks_of(V, sos) + [sos]
+    dicts = small_dense_table(rng, V, sos, N, dens=0.7 if N < 4 else 0.4)
+    case = dict(kind="lm", V=V, sos=sos, dicts=dicts, opt=0, detour=rng.random() < 0.5)
+    tops = [e[0] for e in dicts[-1] if e[1] != NEG] or [dicts[-1][0][0]]
+    cols = [[rng.choice(toks) for _ in range(T - N + 1)] + rng.choice(tops)[:N - 1] for _ in range(3)]
+    h1 = cols_to_hist(cols[:1])
+    h3 = cols_to_hist(cols)
+    case["queries"] = [dict(hist=h1, B=1, idx=None),
+                       dict(hist=h3, B=3, idx=T), dict(hist=h3, B=3, idx=-2, idx_form="t0"),
+                       dict(hist=h3, B=3, idx=rng.choice([15, 16, 17, T // 2]), idx_form=rng.choice(["int", "t1"])),
+                       dict(hist=h3, B=3, idx=[T, 0, T - 1], idx_form=rng.choice(["i64", "i32"])),
+                       dict(hist=h3, B=3, idx=[T, T - 1, T], layout=rng.choice([None, "transposed", "rowstep"])),
+                       dict(hist=h3, B=3, idx=[16, T - 16, -1])]
+    return case
+
+
+def size_chunk_table(rng, c):
+    """extent = chunk_size of calc_full_log_probs_chunked (T_rest * B columns per pass): the number of positions
+    after the prefix loop is c (one exactly full chunk), c + 1 (a last chunk of ONE position), 2c - 1 or 2c"""
+    V, N = 2, rng.choice([2, 3])
+    sos = rng.choice([0, V, -1])
+    toks = toks_of(V, sos) + [sos]
+    big = c > 200
+    B = 1 if big else rng.choice([1, 1, 2])
+    case = dict(kind="lm", V=V, sos=sos, dicts=small_dense_table(rng, V, sos, N), opt=0, detour=False)
+    qs = []
+    for L in ((c + 1, 2 * c) if big else (c, c + 1, rng.choice([2 * c - 1, 2 * c]))):
+        T = L - 1 + (N - 1)          # positions N-1 .. T are done in chunks: T + 1 - (N - 1) = L of them
+        qs.append(dict(hist=[[rng.choice(toks) for _ in range(B)] for _ in range(T)], B=B, idx=None, chunk=c,
+                       call=rng.choice(["kw", "pos"])))
+    case["queries"] = qs
+    return case
+
+
+def size_order_table(rng, N):
+    """extent = the window of N - 1 history tokens (rows of the padded / sliced / mask-selected history): a chain table
+    of high order over two tokens, histories shorter and longer than the window"""
+    V, sos = 2, rng.choice([0, 2])
+    toks = toks_of(V, sos)
+    chain = [rng.choice(toks) for _ in range(N)]
+    dicts = [[[[t], dval(t), dbo(t)] for t in toks]]
+    for n in range(2, N + 1):
+        ents = [[chain[N - n:], dval(10 * n), 0 if n == N else dbo(n)]]
+        alt = [toks[(toks.index(chain[N - n]) + 1) % len(toks)]] + chain[N - n + 1:]
+        if rng.random() < 0.5:
+            ents.append([alt, dval(10 * n + 1), 0 if n == N else dbo(n + 1)])
+        dicts.append(ents)
+    case = dict(kind="lm", V=V, sos=sos, dicts=dicts, opt=0, detour=False)
+    c1 = [rng.choice(toks) for _ in range(3)] + chain[:-1]
+    c2 = [rng.choice(toks) for _ in range(4)] + chain[1:-1]
+    case["queries"] = [dict(hist=cols_to_hist([c1, c2]), B=2, idx=len(c1)),
+                       dict(hist=cols_to_hist([c1, c2]), B=2, idx=[len(c1), len(c1) - 1]),
+                       dict(hist=cols_to_hist([chain[:-1]]), B=1, idx=None, chunk=3),
+                       dict(hist=cols_to_hist([chain[N // 2:-1], chain[N // 2:-1]]), B=2, idx=[N - 1 - N // 2, 1])]
+    return case
+
+
+def size_cases(rng, tier):
+    """quick, per extent: 17 (first size an unstable sort / topk permutes), 33, 64 (a full block), 129 (first index an
+    int8 cannot hold) always, one or two of the other sizes next to 32 / 64 / 128 and one of 256 / 257 (uint8) in turn
+    with the seed; thorough: every size of SIZES and SIZES_BIG for every extent, twice"""
+    out = []
+    thorough = tier == "thorough"
+    gens = [("batch", size_batch_table, 2), ("time", size_time_table, 2), ("chunk", size_chunk_table, 2),
+            ("ngrams", lambda r, s: size_ngrams_table(r, s, r.choice([2, 3])), 1), ("vocab", size_vocab_table, 1),
+            ("children", lambda r, s: size_children_table(r, s, deep=r.random() < 0.4), 1)]
+    for rep in range(2 if thorough else 1):
+        for name, gen, extra in gens:
+            sizes = SIZES + SIZES_BIG if thorough else \
+                [17, 33, 64, 129] + rng.sample([31, 32, 63, 65, 127, 128], extra) + [rng.choice([256, 257])]
+            for s in sizes:
+                out.append((gen(rng, s), "size:" + name))
+        for n in ([9, 17, 33] if thorough else [17]):
+            out.append((size_order_table(rng, n), "size:order"))
+    return out
+
+
+# ----------------------------------------------------------------------------------------
 # Coq terms
 # ----------------------------------------------------------------------------------------
 
@@ -658,7 +942,13 @@ def table_terms(case, res):
     impl_build = f"(Some ({c_bufs(b)}, ({cn(b['N'])}, {cz(b['G'])}, {cz(b['S'])}), ({cn(b['ow'])}, {cn(b['iw'])})))"
     inf = res["inferred"]
     impl_inf = "None" if inf is None else f"(Some ({cn(inf[0])}, {cz(inf[1])}, {cz(inf[2])}))"
-    t1 = ("(" + pre + "trie_okb b sh (tmap sh t) && tab_okb (vocab sh) (sos sh) t"
+    # the validator re-enumerates all reachable nodes (V roots x max_direct_descendants candidates each) once per table
+    # entry: minutes for the size-threshold tables with one very wide node.  There (only there: no other stream comes
+    # near the bound) the buffers are tied to the table by check_build alone (= the model of _build_trie, whose output
+    # is PROVED TrieOK for every well-formed table: c06_build_trie_ok)
+    ntab = sum(len(d) for d in case["dicts"])
+    validator = "trie_okb b sh (tmap sh t) && " if (case["V"] + 1) * b["S"] * ntab <= 1500000 else ""
+    t1 = ("(" + pre + validator + "tab_okb (vocab sh) (sos sh) t"
           f" && check_build {cz(case['V'])} {cz(case['sos'])} {c_dicts(case['dicts'])} {impl_build}"
           f" && check_infer {cz(case['V'])} {cz(case['sos'])} b {impl_inf})")
     t2 = "(" + pre + " && ".join(["true"] + [model_query_term(q, o) for q, o in zip(case["queries"], res["outs"])]) + ")"
@@ -1159,12 +1449,21 @@ def gen_cases(chk):
     cases.append((deep_table(rng), "boundary"))
     for _ in range(150 if chk.tier == "thorough" else 24):
         cases.append((fanout_table(rng), "fanout"))
-    nrand = 2500 if chk.tier == "thorough" else 260
+    nrand =2500 if chk.tier == "thorough" else 260
     for _ in range(nrand):
         cases.append((gen_table(rng), "random"))
     narpa = 1500 if chk.tier == "thorough" else 220
     for i in range(narpa):
         cases.append((gen_arpa(rng, malformed=(i % 3 == 2)), "arpa-malformed" if i % 3 == 2 else "arpa"))
+    # size thresholds, one extent at a time (drawn last, so the streams above are what they were)
+    for case, stream in size_cases(rng, chk.tier):
+        dim = stream.split(":")[1]
+        chk.count("size:%s=%s" % (dim, {"batch": lambda c: c["queries"][0]["B"], "time": lambda c: len(c["queries"][1]["hist"]),
+                                        "chunk": lambda c: c["queries"][0]["chunk"], "vocab": lambda c: c["V"],
+                                        "ngrams": lambda c: max(len(d) for d in c["dicts"][1:]),
+                                        "children": lambda c: max(len(d) for d in c["dicts"][1:]) - (1 if len(c["dicts"]) == 3 else 2),
+                                        "order": lambda c: len(c["dicts"])}[dim](case)))
+        cases.append((case, stream))
     return cases
 
 
